@@ -22,13 +22,13 @@ func init() {
 	comp["network between actors and mempools"] = "stub: simulated transport (drop, duplicate, delay, reorder, partition) in front of the real CheckTx"
 	assume := []string{"outer tx signatures are not verified; the signer is the declared signer field", "single block proposer per chain", "the executor relays faithfully (C08's premise); the proposer only commits to withdrawals the L2 recorded"}
 
-	c08 := &tcProfile{Prop: "C08", Reimport: 1, Steps: [2]int{60, 220}, Faults: true, Challenge: 2, Hooks: 20, BadRcpt: 12}
+	c08 := &tcProfile{Prop: "C08", Reimport: 1, Others: 6, Steps: [2]int{60, 220}, Faults: true, Challenge: 2, Hooks: 20, BadRcpt: 12}
 	core.Register(&core.Scenario{ID: "C08", Level: "exploration", Run: runTwoChain(c08), Components: comp, Assumptions: assume,
 		Rule: "the full bridge: real L1 and L2 nodes, users on both sides, 1-3 racing executors, proposer, challenger forcing re-proposal, claimers, third-party sends, over a simulated network with loss / duplication / delay / reordering / partitions and crash-restart of either node, then a fault-free drain; oracle: both lock-step models plus the peg equation escrow = L2 supply + deposits in flight + unpaid withdrawals (from parsed events and public queries) after every block of either chain, and after the drain every claim paid exactly once, escrow = supply, combined holdings unchanged; non-trivial = >=2 deposits, >=1 withdrawal and >=1 successful claim",
 		QuickRuns: 1000, QuickSecs: 75, ThoroughRuns: 15000, ThoroughSecs: 800,
 		RequiredProbes: []string{"drain.completed", "e2e.claim-succeeded", "deposit.refunded", "challenge.deleted", "mempool.redundant-relay-filtered"}})
 
-	c04 := &tcProfile{Prop: "C04", Reimport: 1, Steps: [2]int{80, 300}, Faults: false, Challenge: 1, BigTrees: true, BigAmts: true, Hooks: 15, BadRcpt: 25, WWithdraw: 16, WPropose: 1}
+	c04 := &tcProfile{Prop: "C04", Reimport: 1, Others: 5, Steps: [2]int{80, 300}, Faults: false, Challenge: 1, BigTrees: true, BigAmts: true, Hooks: 15, BadRcpt: 25, WWithdraw: 16, WPropose: 1}
 	core.Register(&core.Scenario{ID: "C04", Level: "exploration", Run: runTwoChain(c04), Components: comp, Assumptions: assume,
 		Rule: "the full bridge with a faithful executor whose trees are built from the L2 initiate_token_withdrawal events only (independent prover, both odd-node rules): user withdrawals and refund withdrawals (malformed / blocked recipients, failing hooks) with amounts from {1, typical, 2^62, 2^63-1, 2^63, 2^64-1, 2^64+}, several denoms, upper-case bech32 recipients, trees of 1-33 leaves with every leaf claimed, challenger deletion with re-proposal; oracle: every recorded withdrawal with positive amount and valid L1 recipient is finalised exactly once within the drain budget; non-trivial = >=2 deposits, >=1 withdrawal and >=1 successful claim",
 		QuickRuns: 600, QuickSecs: 75, ThoroughRuns: 15000, ThoroughSecs: 800,
